@@ -266,3 +266,6 @@ m('rx4-empty-observable-completion-swallowed', ['C20'], 'rsocket/reactivex/back_
 m('close-does-not-fail-late-requests (revert fix)', ['C11'], 'rsocket/rsocket_base.py',
   "        # Requests made after the receiver had already ended (connection lost earlier) are still registered.\n        self.stop_all_streams()\n",
   "")
+m('terminal-callback-raise-leaves-stream (revert fix)', ['C07'], 'rsocket/handlers/request_stream_requester.py',
+  "            try:\n                self._subscriber.on_error(error_frame_to_exception(frame))\n            finally:\n                self._finish_stream()",
+  "            self._subscriber.on_error(error_frame_to_exception(frame))\n            self._finish_stream()")
